@@ -37,6 +37,8 @@ CLAIMS = {
             "no iteration over RandomState-hashed containers or other process-dependent sources; states are merged only after every consumed entry was vetted; tree equality of optimised/unoptimised parsers is not decided"),
     "C17": ("pairing rules in both directions (push↔HighlightStart, pop↔HighlightEnd), who-may-construct table for events, gates on Source emission, termination and HTML escaping (rustc MIR)", "§4 C17",
             "events are emitted exactly where the end-position stack changes; raw bytes reach the HTML only when escape-free; a reused renderer/parser is reset; injected layers parse only ranges produced by intersect_ranges, which re-clamps against every parent range; ordering across layers and local-reference colouring are not decided"),
+    "C16": ("must-pass-through gates over Clang CFGs of language.c / language.h: exact-match licence of name look-ups, loop ranges, table bounds, termination and skip conditions of the look-ahead iterator", "§10.8 C16",
+            "symbol and field names are resolved only by exact match over the whole id range and id→name reads stay inside the tables; the look-ahead iterator stops only at the end of the row / group list and skips only empty entries; conformance to node-types.json and superset look-ahead sets (generated data) are not decided"),
     "C18": ("value-flow (expression provenance) rules over rustc MIR of tree-sitter-tags: which node and positions every Tag / per-line-cache field is computed from; gates on cache reuse, on dropping local names and on the line window bounds", "§10.7 C18",
             "range is the hull of tag and name ranges, span/line/UTF-16 columns are computed from the name node, the same-row cache stores and is used for consistent positions, the line window is clamped to the text; the numeric relations themselves (UTF-16 lengths, rows/columns) and doc text are not decided"),
     "C19": ("typestate monitor (lock held / dropped) and publish-after-success monitor over rustc MIR; who-may-call table for the compile functions; data-dependence of the compiler's output argument on temp_path", "§4 C19",
@@ -50,7 +52,6 @@ CLAIMS = {
 NA = {
     "C03": "quantifies over grammars × strings; truth lives in generated table contents, not in code shape — no sound static rule in reach",
     "C05": "match semantics of the query automaton over all trees is a runtime relation; no structural necessary condition that is not a frozen fragment",
-    "C16": "conformance of produced trees to node-types.json and completeness of look-ahead sets relate generated data to runtime behaviour",
 }
 
 
